@@ -451,21 +451,31 @@ func c04R3(c *Ctx, p *Prog, rule string) {
 			}
 		}
 		// --- side to move
-		stm := fieldStores(fn, "Board.STM")
-		ok := len(stm) == 1 && len(byKind["stm"]) == 1
-		if ok {
-			st := stm[0]
-			call, isCall := st.Val.(*ssa.Call)
-			ok = isCall && objName(calleeObj(call)) == "chess.(Color).Flip" && isFieldLoad(call.Call.Args[0], "Board.STM")
-			ok = ok && blockDomOrSame(st.Block(), app.Block())
-			t := byKind["stm"][0]
-			ok = ok && t.Xor != nil && blockDomOrSame(t.Xor.Block(), app.Block()) && len(t.Idx) == 0 && t.Enable == nil
+		{
+			upd, plain := selfUpdates(p, fn, "Board.STM")
+			nTerm := len(byKind["stm"])
+			pos := fn.Pos()
+			if len(upd) > 0 {
+				pos = upd[0].site.Pos()
+			}
+			key := spec + "#stm"
+			switch {
+			case plain > 0 || len(upd) > 1 || (len(upd) == 1 && upd[0].op != "flip"):
+				c.Undec(rule, key, pos, "the side to move is assigned in a form that is not a single flip (flips: %d, other stores: %d)", len(upd), plain)
+			case len(upd) == 0 && nTerm == 0:
+				c.Fail(rule, key, pos, "the side to move is never flipped and stmRand never xor-ed")
+			case len(upd) == 0:
+				c.Fail(rule, key, pos, "stmRand is xor-ed into the hash but the side to move is not flipped")
+			case nTerm != 1:
+				c.Fail(rule, key, pos, "the side to move is flipped once but stmRand is xor-ed %d times: the hash no longer tells the side to move", nTerm)
+			default:
+				u := upd[0]
+				t := byKind["stm"][0]
+				once := !u.cond && onEveryPathOnce(fn, u.site) && blockDomOrSame(u.site.Block(), app.Block())
+				termOK := t.Xor != nil && blockDomOrSame(t.Xor.Block(), app.Block()) && len(t.Idx) == 0 && t.Enable == nil
+				c.Check(once && termOK, rule, key, pos, "side to move is flipped exactly once on every path and stmRand is xor-ed exactly once, unconditionally (flip unconditional: %v, key unconditional: %v)", once, termOK)
+			}
 		}
-		pos := fn.Pos()
-		if len(stm) > 0 {
-			pos = stm[0].Pos()
-		}
-		c.Check(ok, rule, spec+"#stm", pos, "side to move is flipped exactly once on every path and stmRand is xor-ed exactly once, unconditionally (stores: %d, stmRand terms: %d)", len(stm), len(byKind["stm"]))
 
 		// --- castling
 		cast := fieldStores(fn, "Board.Castles")
